@@ -103,6 +103,27 @@ CHECKS["C11"] = dict(
     ref="§4.C11", note="Different argv[0] between calls is excluded by the property.",
     technique="TLA+ object-state spec (History.tla) model-checked with TLC; TLC-generated histories replayed on one real Command; recorded histories validated by a TLA+ trace spec")
 
+CHECKS["C12"] = dict(
+    text=("HelpModel.tla states the default template's visibility filters (should_show_arg, hidden subcommands and possible values), section "
+          "membership, Arg's display width and the column arithmetic of write_args / align_to_about / subcmd with every subtraction a checked "
+          "site; TLC checks the sites and that the help flag at a subcommand level yields that level's help for every definition of the help "
+          "family (all singles, all ordered pairs and random triples of 16 argument shapes with random hide attributes, trees with hidden "
+          "and flag subcommands) and emits what each rendering must / must not mention; the real -h/--help errors, render_help, "
+          "render_long_help and render_usage are rendered at many widths under catch_unwind and judged (no panic, no run of spaces beyond "
+          "the layout bound, visible items in their section, hidden items nowhere, usage line of the right level); divergent renderings are "
+          "judged by Trace_Help.tla."),
+    ref="§5.C12", note="Pixel-exact layout and custom templates are not judged; mentions are located by sentinel substrings.",
+    technique="TLA+ spec (HelpModel.tla) model-checked with TLC; TLC-generated expectations replayed on the real help renderer at many widths; divergent renderings judged by a TLA+ trace spec")
+CHECKS["C18"] = dict(
+    text=("Complete.tla states what the dynamic completion engine must and may offer against the *parser specification's* view of the words "
+          "before the cursor (Parser.tla's own loop gives the level reached, a pending option and the escape state); TLC enumerates every "
+          "(definition of the core and tree families, words within the bound, cursor) and emits the ids that must be represented; the real "
+          "engine is called for each under catch_unwind, and every answer offering option/subcommand candidates where a new argument may "
+          "start is judged by Trace_Complete.tla: sound (extends the word, belongs to the level, accepted by the parser as that option / "
+          "subcommand), complete (every visible option/subcommand extending the word is represented), hidden only if nothing visible."),
+    ref="§5.C18", note="Value/path candidates and custom completers are not constrained by the property. Four recorded limitations of the engine (flag subcommands, infer_subcommands, args_conflicts_with_subcommands, subcommand_precedence_over_arg) are known findings keyed by witness class.",
+    technique="TLA+ spec (Complete.tla over Parser.tla) model-checked with TLC; TLC-generated queries replayed on the real completion engine; answers judged by a TLA+ trace spec")
+
 NOT_YET = "check not built yet in this round (specification module planned in DESIGN.md §4/§5); not claimed until its check exists"
 
 
